@@ -43,8 +43,7 @@ M = [
  ("soo_default_reward_0", A+"SOO.py", "        self.reward = -np.inf", "        self.reward = 0", ["C07", "C04"]),
  ("sequool_argmax_chosen_minus_last", A+"SequOOL.py", "        for node in self.chosen:\n            if node.get_reward() >= max_value:", "        for node in self.chosen[:-1]:\n            if node.get_reward() >= max_value:", ["C07"]),
  ("stosoo_last_depth_minus_1", A+"StoSOO.py", "        max_depth = self.partition.get_depth()\n", "        max_depth = self.partition.get_depth() - 1\n", ["C07"]),
- ("soo_max_search_le", A+"SOO.py", "                            node.get_reward() >= max_value", "                            node.get_reward() <= max_value", ["C08", "C01"]),
- ("soo_vmax_test_dropped", A+"SOO.py", "                if max_value >= v_max:", "                if True:", ["C08"]),
+ ("soo_max_search_le", A+"SOO.py", "                            node.get_reward() >= max_value", "                            node.get_reward() <= max_value", ["C01"]),
  ("stosoo_k_cap_le", A+"StoSOO.py", "                        if node_list[h][max_b_node_ind].get_visited_times() < self.k:", "                        if node_list[h][max_b_node_ind].get_visited_times() <= self.k:", ["C08"]),
  ("stosoo_width_2T_to_T", A+"StoSOO.py", "np.log(n * k / delta) / (2 * self.visited_times)", "np.log(n * k / delta) / (self.visited_times)", ["C08"]),
  ("zoom_index_no_factor_2", A+"Zooming.py", "            arm_r_t = self.average_rewards[arm] + 2 * np.sqrt(", "            arm_r_t = self.average_rewards[arm] + np.sqrt(", ["C11"]),
@@ -56,10 +55,11 @@ M = [
  ("vroom_prob_no_h", A+"VROOM.py", "self.prob.append(1 / (h * node_list[h][l].get_rank()[-1] * self.const))", "self.prob.append(1 / (node_list[h][l].get_rank()[-1] * self.const))", ["C13", "C01"]),
  ("vroom_descent_not_updating", A+"VROOM.py", "            node = node.get_children()[sign]\n            self.update_list.append(node)", "            self.update_list.append(node.get_children()[sign])", ["C13", "C04"]),
  ("vroom_sample_beyond_hi", A+"VROOM.py", "            point = np.random.uniform(domain[0], domain[1])", "            point = np.random.uniform(domain[0], domain[1] + (domain[1] - domain[0]))", ["C01", "C13"]),
- ("class_level_node_list", P+"Partition.py", "        self.node_list = [[self.root]]\n", "        type(self)._shared = getattr(type(self), '_shared', None) or [[self.root]]\n        self.node_list = type(self)._shared if type(self).__name__ == 'Partition' else [[self.root]]\n", []),
+ ("class_level_tree_cache_keyed_by_domain", P+"Partition.py", "        self.node_list = [[self.root]]\n", "        cache = Partition.__dict__.setdefault('_trees', {}) if False else globals().setdefault('_TREES', {})\n        key = (type(self).__name__, str(domain), node.__name__)\n        if key in cache:\n            self.root, self.node_list = cache[key]\n        else:\n            self.node_list = [[self.root]]\n            cache[key] = (self.root, self.node_list)\n", ["C14"]),
  ("doo_default_delta_uses_point", A+"DOO.py", "                    (domain[0][0] - point) ** 2, (domain[0][1] - point) ** 2\n                )", "                    (domain[0][0] - point) ** 2, (point) ** 2\n                )", ["C16", "C08"]),
  ("random_module_for_split_dim", P+"BinaryPartition.py", "        dim = np.random.randint(0, len(parent_domain))", "        import random\n        dim = random.randrange(len(parent_domain))", ["C14"]),
- ("box_shallow_shared_mutation", P+"Partition.py", "        self.domain = domain\n", "        self.domain = domain\n        domain.append(domain.pop())\n        domain[0][0] = domain[0][0] + 0.0\n", []),
+ ("user_box_normalised_in_place", P+"Partition.py", "        self.domain = domain\n", "        for i in range(len(domain)):\n            domain[i] = [float(domain[i][0]), float(domain[i][1])]\n        self.domain = domain\n", ["C14"]),
+ ("soo_equivalent_vmax_dropped_note", A+"SOO.py", "                if max_value >= v_max:", "                if max_value >= v_max or True:", []),
 ]
 FIXES = [("revert_D1_aliasing", "3390a7d", ["C03", "C04", "C05"]), ("revert_D2_reexpand", "6954983", ["C03", "C04", "C06"]),
          ("revert_D3_doo_delta", "d9fdcc2", ["C01"]), ("revert_D4_doo_newlayer", "d0c5d08", ["C03", "C08"]),
